@@ -762,7 +762,11 @@ func (h *ResponseHeader) peekAll(key []byte) [][]byte {
 	case consts.HeaderContentLength:
 		h.mulHeader = append(h.mulHeader, h.contentLengthBytes)
 	case consts.HeaderSetCookie:
-		h.mulHeader = append(h.mulHeader, appendResponseCookieBytes(nil, h.cookies))
+		// one value per Set-Cookie field: joined with "; " the cookies would read as
+		// attributes of the first one
+		for i := range h.cookies {
+			h.mulHeader = append(h.mulHeader, h.cookies[i].value)
+		}
 	default:
 		h.mulHeader = peekAllArgBytesToDst(h.mulHeader, h.h, key)
 	}
